@@ -245,8 +245,13 @@ func runC07(r *simkit.Run) {
 			nd := honest[restartNode]
 			restartNode = -1 // once
 			w.crash(nd)
-			for i := 0; i < 20 && nd.running; i++ {
+			// (the flag is read only at quiescence: the dying goroutines run beside this one until
+			// the next step of the scheduler)
+			for i := 0; i < 20; i++ {
 				w.settle(200 * time.Millisecond)
+				if !nd.running {
+					break
+				}
 			}
 			if nd.running {
 				r.InfraFail("crashed keyper %s does not stop", nd.name)
